@@ -322,6 +322,8 @@ class Gen:
     # ------------------------------------------------------------------ actions
     def vec(self, n, k=None, dtype=None, kind=None):
         g = self.g
+        if dtype is not None and g.random() < 0.12:  # an operand of another precision / field: the product promotes
+            dtype = {"f4": "f8", "f8": g.choice(["c16", "f4"]), "c16": "f8", "c8": "c16"}.get(dtype, dtype)
         shape = [n] if k is None else [n, k]
         layout = g.choice(["c", "c", "c", "f", "strided"])
         return arr(shape, dtype or self.cfg["dtype"], self.seed() % 50, layout=layout,
@@ -1169,7 +1171,11 @@ def matrix_programs_c18():
         X = arr([cols, 2], dt, 52)
         xr = arr([rows], dt, 53)
         R = {"k": "ref", "slot": slot}
+        up = {"f4": "f8", "f8": "c16", "c16": "c16", "c8": "c16"}[dt]  # an operand of a wider dtype: the product promotes
         e = [("to_dense", call("to_dense", A=S(slot))), ("flatten", call("flatten", A=S(slot))),
+             ("mv_promote", [call("matvec", A=S(slot), x=arr([cols, 2], up, 65)), call("matvec", A=S(slot), x=x),
+                             call("rmatvec", A=S(slot), x=arr([rows], up, 66)),
+                             mk("m_ann", {"k": "ann", "name": "Stiefel", "of": R}), call("matvec", A=S("m_ann"), x=arr([cols], up, 67))]),
              ("T", mk("m_T", {"k": "T", "of": {"k": "ref", "slot": slot}})),
              ("H", mk("m_H", {"k": "H", "of": {"k": "ref", "slot": slot}})),
              ("to_f4", mk("m_to", {"k": "to", "of": {"k": "ref", "slot": slot}, "dtype": "f4"})),
@@ -1195,6 +1201,7 @@ def matrix_programs_c18():
                   ("eigmax", call("eigmax_d", A=S(slot))), ("plu", call("plu", A=S(slot))),
                   ("arnoldi", call("arnoldi", A=S(slot), v0=arr([cols], "f8", 55), max_iters=3)),
                   ("smul_then_use", [mk("m_sm", {"k": "smul", "c": -2.0, "of": R}), call("matvec", A=S("m_sm"), x=X)]),
+                  ("csmul", [mk("m_cs", {"k": "smul", "c": [0.5, 2.0], "of": R}), mk("m_cs2", {"k": "rsmul", "c": [0.0, 1.0], "of": R})]),
                   ("rsmul_div", [mk("m_rs", {"k": "div", "of": {"k": "rsmul", "c": 3.0, "of": R}, "c": 2.0}),
                                  call("to_dense", A=S("m_rs"))]),
                   ("prod3_use", [mk("m_p3", {"k": "matmul", "a": {"k": "matmul", "a": R, "b": R}, "b": R}),
